@@ -1,6 +1,6 @@
 INIT Init
 NEXT Next
 CONSTANTS
-  Shapes = {"empty", "garbage", "trunc", "jsonempty", "initgood", "init65", "initshort", "initshortb", "initmismatch", "valset", "valsetwrongts", "att1", "att2dup", "attforeign", "all"}
+  Shapes = {"empty", "garbage", "trunc", "jsonempty", "jsonbare", "valsetonly", "attonly", "initgood", "init65", "initshort", "initshortb", "initmismatch", "valset", "valsetwrongts", "att1", "att2dup", "attforeign", "all"}
 INVARIANT Emit
 CHECK_DEADLOCK FALSE
